@@ -59,7 +59,7 @@ fn site_of(case: &PCase) -> String {
 
 fn gen_case(rng: &mut Rng, tier: Tier, sched_weight: usize, cut: (usize, usize), exclude: Vec<&'static str>) -> PCase {
   let n_hot = rng.range(1, 3);
-  let cfg = GenCfg { max_depth: if tier == Tier::Quick { 3 } else { 5 }, n_hot, sched_weight, exclude, allow_flat: true };
+  let cfg = GenCfg { max_depth: if tier == Tier::Quick { 3 } else { 5 }, n_hot, sched_weight, exclude, allow_flat: true, producer_leaves: false };
   let root = loop {
     let r = gen_node(rng, &cfg, 0);
     if r.valid(0) && r.size() <= 30 {
